@@ -111,7 +111,7 @@ def alarms(args):
                 n += 1
                 if rc != 0 or "VIOLATION" in out:
                     bad += 1
-                    print(f"ALARM seed={s} property={p} rc={rc}\n{out}\n{err}")
+                    print(flush=True, *[f"ALARM seed={s} property={p} rc={rc}\n{out}\n{err}"])
                 notes = [l for l in out.splitlines() if l.startswith("note:")]
                 if notes:
                     print(f"seed={s} property={p}: " + " | ".join(notes))
